@@ -494,6 +494,283 @@ def cps(s):
     return [ord(ch) for ch in s]
 
 
+# ------------------------------------------------------------------ end to end: the real runner
+
+PRELUDE_E2E = """
+Definition mkpkg v ma mi pa pre au nm de ho li lf re rv : package :=
+  {| p_version := v; p_major := ma; p_minor := mi; p_patch := pa; p_pre := pre; p_authors := au;
+     p_name := nm; p_description := de; p_homepage := ho; p_license := li; p_license_file := lf;
+     p_repository := re; p_rust_version := rv |}.
+Definition mkce src nm v f rl : cargo_entry :=
+  {| ce_source := src; ce_name := nm; ce_value := v; ce_force := f; ce_relative := rl |}.
+Definition enc_opt (o : option str) : list N := match o with Some v => 1 :: v | None => [0] end.
+Definition mkrun profile runid dylib tdir entries : run_cfg :=
+  {| rc_profile := profile; rc_run_id := runid; rc_platform := Linux; rc_dylib_path := dylib;
+     rc_target_dir := tdir; rc_cargo_env := env_map_new entries |}.
+Definition tenv (r : run_cfg) cwd pkg attempt gslot (inh : env) (keys : list str) : list (list N) :=
+  match test_assignments r
+          {| sc_cwd := cwd; sc_package := pkg; sc_build_script := None; sc_non_test_binaries := [] |}
+          {| ac_attempt := attempt; ac_global_slot := gslot; ac_group := [64; 103; 108; 111; 98; 97; 108];
+             ac_group_slot := None; ac_setup_env := [] |} inh with
+  | None => [[2]]
+  | Some e => map (fun k => enc_opt (child_env_get k e inh)) keys
+  end.
+Definition senv (r : run_cfg) envpath (inh : env) (keys : list str) : list (list N) :=
+  match script_assignments r envpath inh with
+  | None => [[2]]
+  | Some e => map (fun k => enc_opt (child_env_get k e inh)) keys
+  end.
+"""
+
+
+def gen_scenario(r, idx, root, launcher, thorough):
+    pool = [n for n in HOSTILE_NAMES if "\n" not in n and "\r" not in n]
+    names = []
+    while len(names) < r.choice([2, 3, 5, 7]):
+        nm = r.choice(pool) if r.random() < 0.7 else gen_word(r, 8).replace("\n", "n").replace("\r", "r")
+        if nm not in names:
+            names.append(nm)
+    tests = [dict(name=nm, ignored=r.random() < 0.35) for nm in names]
+    flaky = [t["name"] for t in tests if r.random() < 0.25]
+    base = gen_command_case(r, idx, root)
+    return dict(idx=idx, tests=tests, fail_first_attempt=flaky, retries=1 if flaky else r.choice([0, 2]),
+                extra=r.choice([[], ["--extra", "a b", "it's"], [gen_word(r) for _ in range(r.randint(1, 3))]]),
+                double_spawn=r.random() < 0.6, script=r.choice([None, ["--script", gen_word(r)]]),
+                test_threads=r.choice([1, 2, 4]), entries=base["entries"], inherited=base["inherited"],
+                pkg=base["pkg"], profile="default")
+
+
+def write_scenario(sc, root, launcher):
+    """lays the scenario out on disk: nextest config, cargo configs, scenario file; returns paths"""
+    os.makedirs(os.path.join(root, ".config"), exist_ok=True)
+    os.makedirs(os.path.join(root, "w", "sub"), exist_ok=True)
+    cwd = os.path.join(root, "pkg dir")
+    os.makedirs(cwd, exist_ok=True)
+    lines = ['experimental = ["setup-scripts"]', "[profile.default]", f"retries = {sc['retries']}",
+             "fail-fast = false", f"test-threads = {sc['test_threads']}"]
+    if sc["extra"]:
+        lines += ["[[profile.default.overrides]]", 'filter = "all()"',
+                  "run-extra-args = [" + ", ".join(toml_str(x) for x in sc["extra"]) + "]"]
+    if sc["script"]:
+        lines += ["[[profile.default.scripts]]", 'filter = "all()"', 'setup = "s1"', "[script.s1]",
+                  "command = [" + ", ".join(toml_str(x) for x in [launcher] + sc["script"]) + "]"]
+    open(os.path.join(root, ".config", "nextest.toml"), "w").write("\n".join(lines) + "\n")
+    hc = harness_case(dict(sc, root=root, runner=None, runner_dir=0, build_script=None, name="", ignored=False,
+                           binary_path=launcher, cwd=cwd, platform="target", bins=[], base_output=[]))
+    for rel, content in hc["files"]:
+        pth = os.path.join(root, rel)
+        os.makedirs(os.path.dirname(pth), exist_ok=True)
+        open(pth, "w").write(content)
+    scen = dict(root=root, metadata=hc["metadata"], package_id=hc["package_id"], config_cwd="w/sub",
+                cli_configs=hc["cli_configs"], double_spawn=sc["double_spawn"], cwd=cwd, tests=sc["tests"],
+                fail_first_attempt=sc["fail_first_attempt"], profile=sc["profile"])
+    sp = os.path.join(root, "scenario.json")
+    json.dump(scen, open(sp, "w"))
+    return sp, os.path.join(root, "log.jsonl"), cwd
+
+
+def run_scenario(sc, root, launcher, base_env):
+    sp, log, cwd = write_scenario(sc, root, launcher)
+    env = dict(base_env)
+    env.update(dict(sc["inherited"]))
+    env.update({"C15_SCENARIO": sp, "C15_LOG": log})
+    # the runner's own stdin is a regular file, so a child that merely inherited it is told apart
+    # from one whose stdin is the null device
+    with open(sp) as runner_stdin:
+        p = subprocess.run([launcher, "run-tests", sp], env=env, capture_output=True, text=True,
+                           stdin=runner_stdin, timeout=300)
+    summary = None
+    if p.returncode == 0:
+        try:
+            summary = json.loads(p.stdout.strip().splitlines()[-1])
+        except (ValueError, IndexError):
+            summary = None
+    records = [json.loads(l) for l in open(log)] if os.path.exists(log) else []
+    return dict(rc=p.returncode, stderr=p.stderr[-1500:], summary=summary, records=records, env=env, cwd=cwd)
+
+
+def oracle_scenario(sc, obs, launcher):
+    """the property's statement on what the real processes reported; returns failing clauses"""
+    fails = []
+    sm = obs["summary"]
+    if sm is None:
+        return [f"the run did not complete: rc={obs['rc']} {obs['stderr']}"]
+    if sc["double_spawn"] and not sm["double_spawn_active"]:
+        return ["double-spawn could not be enabled"]
+    want_listed = sorted([[t["name"], t["ignored"]] for t in sc["tests"]])
+    if sorted(sm["listed"]) != want_listed:
+        fails.append(f"listed tests {sm['listed']!r} differ from the scenario's {want_listed!r}")
+    run_id = sm["run_id"]
+    tests = {t["name"]: t for t in sc["tests"]}
+    seen_attempts = {}
+    pids = []
+    pkg_case = dict(pkg=sc["pkg"], profile=sc["profile"], cwd=obs["cwd"])
+    fixed = expected_fixed_env(pkg_case)
+    known = False
+    for rec in obs["records"]:
+        argv, e = rec["argv"], dict(rec["env"])
+        what = f"process {argv[1:]!r}"
+        pids.append(rec["pid"])
+        if rec["pid"] != rec["pgid"]:
+            fails.append(f"{what} is not the leader of its own process group (pid {rec['pid']}, pgid {rec['pgid']})")
+        if rec["ppid"] != sm["runner_pid"]:
+            fails.append(f"{what} is not a child of the runner (ppid {rec['ppid']}, runner {sm['runner_pid']})")
+        if rec["stdin"] != "/dev/null":
+            fails.append(f"{what} has stdin {rec['stdin']!r}, not the null device")
+        if e.get("NEXTEST_RUN_ID") != run_id:
+            fails.append(f"{what} has NEXTEST_RUN_ID {e.get('NEXTEST_RUN_ID')!r}, the run's id is {run_id!r}")
+        if e.get("NEXTEST") != "1" or e.get("NEXTEST_PROFILE") != sc["profile"]:
+            fails.append(f"{what} has NEXTEST={e.get('NEXTEST')!r} NEXTEST_PROFILE={e.get('NEXTEST_PROFILE')!r}")
+        if sc["script"] and argv[1:] == sc["script"]:
+            seen_attempts["<script>"] = seen_attempts.get("<script>", 0) + 1
+            continue
+        if len(argv) < 3 or argv[1] != "--exact" or argv[2] not in tests:
+            fails.append(f"unexpected process with argv {argv!r}")
+            continue
+        t = tests[argv[2]]
+        want = [launcher, "--exact", t["name"], "--nocapture"] + (["--ignored"] if t["ignored"] else []) + sc["extra"]
+        if argv != want:
+            fails.append(f"test {t['name']!r} was started with argv {argv!r}, the property demands {want!r}")
+        if os.path.realpath(rec["cwd"]) != os.path.realpath(obs["cwd"]):
+            fails.append(f"test {t['name']!r} runs in {rec['cwd']!r}, the package directory is {obs['cwd']!r}")
+        seen_attempts[t["name"]] = seen_attempts.get(t["name"], 0) + 1
+        for k, v in fixed.items():
+            if e.get(k) == v:
+                continue
+            if k == "CARGO_PKG_RUST_VERSION" and in_known_class(pkg_case) and e.get(k) == v + ".0":
+                known = True
+                continue
+            fails.append(f"test {t['name']!r}: {k} is {e.get(k)!r}, nextest's documented value is {v!r}")
+    if len(set(pids)) != len(pids):
+        fails.append(f"two attempts shared a process: pids {pids}")
+    for t in sc["tests"]:
+        want_n = 2 if t["name"] in sc["fail_first_attempt"] else 1
+        if seen_attempts.get(t["name"], 0) != want_n:
+            fails.append(f"test {t['name']!r} was started {seen_attempts.get(t['name'], 0)} times, expected {want_n}")
+    if sc["script"] and seen_attempts.get("<script>", 0) != 1:
+        fails.append(f"the setup script was started {seen_attempts.get('<script>', 0)} times")
+    return fails, known
+
+
+def coq_run_cfg(sc, root, run_id, base_env):
+    ents = [e for e in sc["entries"] if e[0] == "cli"] + \
+           sorted([e for e in sc["entries"] if e[0] != "cli"], key=lambda e: e[0])
+    ce = []
+    for where, k, v, force, rel in ents:
+        src = "None" if where == "cli" else f"(Some {coq_str(config_path(root, CFG_DIRS[where]))})"
+        ce.append(f"mkce {src} {coq_str(k)} {coq_str(v)} {opt(force, coq_bool)} {opt(rel, coq_bool)}")
+    dylib = ":".join(x for x in base_env.get("LD_LIBRARY_PATH", "").split(":") if x)
+    return (f"(mkrun {coq_str(sc['profile'])} {coq_str(run_id)} {coq_str(dylib)} "
+            f"{coq_str(os.path.join(root, 'target'))} {coq_list(ce)})")
+
+
+def coq_pkg(p):
+    return (f"(mkpkg {coq_str(pkg_version(p))} {coq_str(str(p['major']))} {coq_str(str(p['minor']))} "
+            f"{coq_str(str(p['patch']))} {coq_str(p['pre'])} {coq_list([coq_str(a) for a in p['authors']])} "
+            f"{coq_str(p['name'])} {opt(p['description'])} {opt(p['homepage'])} {opt(p['license'])} "
+            f"{opt(p['license_file'])} {opt(p['repository'])} {opt(p['rust_version'])})")
+
+
+def check_e2e(chk, r, thorough, corp):
+    launcher = os.path.join(vlib.TARGET, "debug", "c15_launcher")
+    if not os.path.exists(launcher):
+        return set(), 0
+    tmp = os.path.realpath(os.path.join(vlib.CACHE, "c15tmp", f"e2e{os.getpid()}"))
+    base_env = base_environment()
+    scenarios = [dict(idx=0, tests=[dict(name="plain::t", ignored=False),
+                                    dict(name="it's a \"test\" $x\\ #1", ignored=True),
+                                    dict(name="flaky one", ignored=False), dict(name=" lead", ignored=False),
+                                    dict(name="", ignored=False), dict(name="--exact", ignored=True)],
+                      fail_first_attempt=["flaky one"], retries=1, extra=["--extra", "a b", "it's"],
+                      double_spawn=True, script=["--script", "x y"], test_threads=2,
+                      entries=[(1, "NEXTEST_RUN_ID", "evil", True, None), (1, "NEXTEST", "0", None, None),
+                               (0, "FOO", "bar", None, None), ("cli", "CARGO_MANIFEST_DIR", "/evil", None, None)],
+                      inherited=[["NEXTEST_RUN_ID", "inherited"], ["CARGO_PKG_NAME", "inh"],
+                                 ["NEXTEST_TEST_GLOBAL_SLOT", "99"], ["__NEXTEST_ATTEMPT", "7"]],
+                      pkg=dict(name="pkg", major=1, minor=2, patch=3, pre="", build="", authors=["A", "B"],
+                               description=None, homepage=None, license=None, license_file=None, repository=None,
+                               rust_version="1.70.1"), profile="default")]
+    for c in corp.get("scenarios", []):
+        c = dict(c)
+        c["entries"] = [tuple(e) for e in c["entries"]]
+        scenarios.append(c)
+    while len(scenarios) < (150 if thorough else 10):
+        scenarios.append(gen_scenario(r, len(scenarios), "", launcher, thorough))
+    distinct = set()
+    exprs, expect, where = [], [], []
+    known_seen = False
+    n_proc = 0
+    for k, sc in enumerate(scenarios):
+        root = os.path.join(tmp, f"s{k}")
+        os.makedirs(root, exist_ok=True)
+        obs = run_scenario(sc, root, launcher, base_env)
+        chk.count("e2e_scenarios")
+        chk.count("e2e_double_spawn=" + str(sc["double_spawn"]).lower())
+        res = oracle_scenario(sc, obs, launcher)
+        fails, known = res if isinstance(res, tuple) else (res, False)
+        known_seen = known_seen or known
+        shown = {a: b for a, b in sc.items()}
+        if fails:
+            chk.violation("counterexample", "oracle:run",
+                          dict(input=dict(scenario=shown), clauses=fails[:8], clause=fails[0],
+                               summary=obs["summary"],
+                               records=[dict(argv=x["argv"], pid=x["pid"], pgid=x["pgid"], ppid=x["ppid"],
+                                             stdin=x["stdin"], cwd=x["cwd"]) for x in obs["records"]][:12]))
+            return distinct, n_proc
+        distinct.add(json.dumps(shown, default=str))
+        # correspondence: the environment each real process saw vs Model/Command.v (executor layer included)
+        sm = obs["summary"]
+        inh = list(obs["env"].items())
+        rc = coq_run_cfg(sc, root, sm["run_id"], base_env)
+        attempts = {}
+        for rec in obs["records"]:
+            n_proc += 1
+            chk.count("e2e_processes")
+            e = dict(rec["env"])
+            keys = sorted(set(e) | {x[1] for x in sc["entries"]} | {a for a, _ in inh})
+            ck = coq_list([coq_str(x) for x in keys])
+            if sc["script"] and rec["argv"][1:] == sc["script"]:
+                exprs.append(f"senv {rc} {coq_str(e.get('NEXTEST_ENV', ''))} {coq_pairs(inh)} {ck}")
+            else:
+                nm = rec["argv"][2] if len(rec["argv"]) > 2 else ""
+                slot = e.get("NEXTEST_TEST_GLOBAL_SLOT", "")
+                if not (slot.isdigit() and int(slot) < sc["test_threads"]):
+                    chk.violation("counterexample", "oracle:run",
+                                  dict(input=dict(scenario=shown), clause=f"test {nm!r} has NEXTEST_TEST_GLOBAL_SLOT "
+                                       f"{slot!r} with {sc['test_threads']} test threads"))
+                    return distinct, n_proc
+                exprs.append(f"tenv {rc} {coq_str(obs['cwd'])} {coq_pkg(sc['pkg'])} "
+                             f"{coq_str(e.get('__NEXTEST_ATTEMPT', ''))} {coq_str(slot)} {coq_pairs(inh)} {ck}")
+                attempts.setdefault(nm, []).append(e.get("__NEXTEST_ATTEMPT"))
+            expect.append([[1] + cps(e[x]) if x in e else [0] for x in keys])
+            where.append((shown, rec["argv"], keys))
+        for nm, al in attempts.items():
+            if sorted(al) != [str(x + 1) for x in range(len(al))]:
+                chk.violation("counterexample", "oracle:run",
+                              dict(input=dict(scenario=shown), clause=f"attempts of {nm!r} are numbered {al}"))
+                return distinct, n_proc
+    model = vlib.coq_eval("c15e2e", IMPORTS, exprs, PRELUDE_E2E)
+    for m, want, (shown, argv, keys) in zip(model, expect, where):
+        if m != want:
+            diff = {k: dict(process=(decode_str(b[1:]) if b[0] else None), model=(decode_str(a[1:]) if a and a[0] == 1 else None))
+                    for k, a, b in zip(keys, m if len(m) == len(want) else [[]] * len(want), want) if a != b}
+            chk.violation("broken-obligation", "corr:run-environment",
+                          dict(input=dict(scenario=shown), process=argv, differences=diff,
+                               note="the environment a real test / setup-script process saw differs from "
+                                    "Model/Command.v (test_assignments / script_assignments); the property oracle "
+                                    "accepted the run"), no_input=True)
+            break
+    if known_seen:
+        listed = [f for f in vlib.known_findings().get("findings", [])
+                  if f.get("property") == PROP and f.get("id") == FINDING_ID]
+        if listed:
+            chk.known_finding(listed[0]["what"])
+    chk.sample(dict(e2e_scenario=scenarios[0]))
+    import shutil
+    shutil.rmtree(tmp, ignore_errors=True)
+    return distinct, n_proc
+
+
 # ------------------------------------------------------------------ the check
 
 def check_shellwords(chk, binary, r, thorough, corp):
@@ -505,7 +782,7 @@ def check_shellwords(chk, binary, r, thorough, corp):
     # pairs over the small alphabet: separator handling between every two styles
     small_words = ["", "a", "'", "\n", "\\", "#", " ", "a'b", "'\n"]
     lists += [[x, y] for x in small_words for y in small_words]
-    while len(lists) < n_exh + (6000 if thorough else 700):
+    while len(lists) < n_exh + (20000 if thorough else 700):
         lists.append(gen_words(r))
     impl = vlib.run_impl(binary, "shellwords", [dict(op="roundtrip", words=ws) for ws in lists])
     model = vlib.coq_eval("c15rt", IMPORTS, [f"rt {coq_list([coq_str(w) for w in ws])}" for ws in lists],
@@ -558,7 +835,7 @@ def check_shellwords(chk, binary, r, thorough, corp):
     lines += list(corp.get("lines", []))
     lines += ['"\\$\\`\\"\\\\\\a\\\n"', "a\\\nb", "\\\n", "\\", "a\\", "'", '"', '"\\', "# c\nx", "a#b", "a #b",
               "\t\n x\t\ny ", "''", '""', "'a'\"b\"c\\ d", "$x `y` ˜ ~", "\\#", "x\\\n#y"]
-    while len(lines) < n_exh2 + (8000 if thorough else 900):
+    while len(lines) < n_exh2 + (15000 if thorough else 900):
         lines.append(gen_line(r))
     impl = vlib.run_impl(binary, "shellwords", [dict(op="split", s=s) for s in lines])
     model = vlib.coq_eval("c15sp", IMPORTS, [f"sp {coq_str(s)}" for s in lines], PRELUDE_SW)
@@ -659,7 +936,7 @@ def check_commands(chk, binary, r, thorough, corp, seed):
             c = gen_command_case(r, len(cases), os.path.join(tmp, f"c{len(cases)}"))
             c["name"], c["double_spawn"] = nm, ds
             cases.append(c)
-    while len(cases) < (1500 if thorough else 220):
+    while len(cases) < (2500 if thorough else 220):
         cases.append(gen_command_case(r, len(cases), os.path.join(tmp, f"c{len(cases)}")))
     # launcher end to end: the command nextest builds is really executed through the real
     # `__double-spawn` subcommand (clap parser + DoubleSpawnOpts::exec of cargo-nextest, linked
@@ -667,7 +944,7 @@ def check_commands(chk, binary, r, thorough, corp, seed):
     launcher = os.path.join(vlib.TARGET, "debug", "c15_launcher")
     n_exec = 0
     if os.path.exists(launcher):
-        names = HOSTILE_NAMES + [gen_word(r, 10) for _ in range(300 if thorough else 30)]
+        names = HOSTILE_NAMES + [gen_word(r, 10) for _ in range(1000 if thorough else 30)]
         for nm in names:
             c = gen_command_case(r, len(cases), os.path.join(tmp, f"c{len(cases)}"))
             c["name"], c["double_spawn"], c["exec"] = nm, True, True
@@ -764,12 +1041,15 @@ def run(tier, seed):
     corp = corpus()
     d1, n1 = check_shellwords(chk, binary, r, thorough, corp)
     d2, n2 = check_commands(chk, binary, r, thorough, corp, seed)
+    d3, n3 = check_e2e(chk, r, thorough, corp) if not chk.violations else (set(), 0)
     chk.assumptions = [
-        "process-level facts (a fresh process per attempt, own process group, stdin = /dev/null, the real execve "
-        "through cargo-nextest's __double-spawn subcommand incl. clap's parsing of its two positionals, "
-        "NEXTEST_RUN_ID and slot variables at run time) are modelled but not tied here: they await the "
-        "end-to-end rig; the launcher side is represented by the real shell_words::split on the joined argument",
-        "strings are lists of Unicode scalar values; NUL cannot occur in an argv/env string and is not generated",
+        "the process-level facts (fresh process per attempt, own process group, stdin = /dev/null, NEXTEST_RUN_ID "
+        "and attempt/slot variables at run time, the real exec through the __double-spawn subcommand) are observed "
+        "on real runs of nextest's runner driven through its public API from harness/src/bin/c15_launcher.rs "
+        "(which links the real cargo-nextest launcher code), not on the packaged cargo-nextest binary: the full CLI "
+        "path (cargo nextest run) is left to the coordinator's end-to-end rig",
+        "strings are lists of Unicode scalar values; NUL cannot occur in an argv/env string and is not generated; "
+        "test names in real runs contain no line break (the list format is line based)",
         "Unix only (no Windows environment-key case folding, LD_LIBRARY_PATH as the dylib variable)",
         "the setup-script environment (applied last; C18) is a side condition of C15_env_fixed",
         "Path::parent / join are modelled for normalised paths (the generator only produces such paths)",
@@ -780,9 +1060,11 @@ def run(tier, seed):
          "hand-written models Model/ShellWords.v (tied by corr:shellwords-{roundtrip,quote,split} to shell-words "
          "1.1.0) and Model/Command.v (tied by corr:make-command through hook H5 to TestInstance::make_command, "
          "TestCommand::new, create_command, EnvironmentMap, apply_package_env, apply_ld_dyld_env)",
+         "Model/Command.v test_assignments / script_assignments tied by corr:run-environment to the environment "
+         "real test and setup-script processes report under the real TestRunner",
          "Python generators/canonicalisers and the reference splitter in props/C15.py",
-         "harness/src/{shellwords,command}.rs"],
-        dict(evaluations=n1 + n2, distinct_nontrivial=len(d1) + len(d2),
+         "harness/src/{shellwords,command}.rs, harness/src/bin/c15_launcher.rs"],
+        dict(evaluations=n1 + n2 + n3, distinct_nontrivial=len(d1) + len(d2) + len(d3),
              rule="shell-words: every word of length <= 3 over 9 characters (quote, backslash, space, newline, #, "
                   "$, non-ASCII, ...) singly, pairs of short words, random word lists over an alphabet dense in "
                   "shell metacharacters; every line of length <= 4 (thorough: 5) over 7 characters and random "
@@ -790,11 +1072,14 @@ def run(tier, seed):
                   "random extra args / cargo [env] tables in up to three config files and --config options "
                   "(force, relative) / inherited environments / build-script env / package metadata / target "
                   "runner; a further set of commands (hostile and random names) is really executed through "
-                  "the real __double-spawn subcommand and the exec'd process's argv/cwd/env compared. "
+                  "the real __double-spawn subcommand and the exec'd process's argv/cwd/env compared; whole runs "
+                  "(hostile test names, ignored flags, run-extra-args, retries, a setup script, hostile cargo/"
+                  "inherited environments, launcher on/off) are executed by the real TestRunner and every started "
+                  "process reports argv, cwd, pid, pgid, ppid, stdin and environment. "
                   "Non-trivial = a word list with a metacharacter or an empty word; a line containing "
                   "a quote, backslash or # or splitting without error; a command with a hostile name or "
                   "argument or a non-empty cargo/inherited environment. Distinct by the full input.",
-             traces_validated_against_impl=n1 + n2))
+             traces_validated_against_impl=n1 + n2 + n3))
 
 
 def replay(path, seed):
@@ -815,6 +1100,18 @@ def replay(path, seed):
         ref = py_split(inp["s"])
         print("implementation:", json.dumps(i), "| reference:", ref)
         return 0 if i.get("ok") == ref else 1
+    if "scenario" in inp:
+        launcher = os.path.join(vlib.TARGET, "debug", "c15_launcher")
+        root = os.path.realpath(os.path.join(vlib.CACHE, "c15tmp", f"replay{os.getpid()}", "s0"))
+        os.makedirs(root, exist_ok=True)
+        sc = dict(inp["scenario"])
+        sc["entries"] = [tuple(e) for e in sc["entries"]]
+        obs = run_scenario(sc, root, launcher, base_environment())
+        res = oracle_scenario(sc, obs, launcher)
+        fails = res[0] if isinstance(res, tuple) else res
+        print("summary:", json.dumps(obs["summary"])[:1500])
+        print("oracle:", fails or "accepts")
+        return 1 if fails else 0
     if "name" in inp and "entries" in inp:
         tmp = os.path.realpath(os.path.join(vlib.CACHE, "c15tmp", f"replay{os.getpid()}"))
         os.makedirs(tmp, exist_ok=True)
